@@ -74,6 +74,27 @@ def canon_path(p, opfns):
     ret = p["ret"]
     if op_term and ret == op_term:
         ret = "OP"
+    elif op_term and ret.startswith(op_term.split("(", 1)[0] + "(") and ret.endswith(")"):
+        # the operator's result with the operands in the function's own parameter order (canonical order differs
+        # when the step comes first, as in `step.lookup(value)`)
+        def top_args(t):
+            inner = t[t.index("(") + 1:-1]
+            out, depth, cur = [], 0, ""
+            for ch in inner:
+                if ch in "([":
+                    depth += 1
+                elif ch in ")]":
+                    depth -= 1
+                if ch == "," and depth == 0:
+                    out.append(cur.strip())
+                    cur = ""
+                else:
+                    cur += ch
+            if cur.strip():
+                out.append(cur.strip())
+            return out
+        if sorted(top_args(ret)) == sorted(top_args(op_term)):
+            ret = "OP"
     if ctx_term:
         if ret == ctx_term:
             ret = "CTX"
